@@ -444,7 +444,7 @@ where
     /// the next event is a Text without content (an empty CDATA section)
     pub closed spec fn next_is_empty_text(&self) -> bool { self.head() matches Some(DeEvent::Text(t)) && t.text@.len() == 0 }
 //@if overlapped-lists
-//@extract de::Deserializer::new | src/de/mod.rs :: impl<'de, R, E> Deserializer<'de, R, E> where R: XmlRead<'de>, E: EntityResolver, :: fn new | serves=C07 features=serialize,overlapped-lists
+//@extract de::Deserializer::new | src/de/mod.rs :: impl<'de, R, E> Deserializer<'de, R, E> where R: XmlRead<'de>, E: EntityResolver, :: fn new | serves=C07,C20 features=serialize,overlapped-lists
     /// Create an XML deserializer from one of the possible quick_xml input sources.
     ///
     /// Typically it is more convenient to use one of these methods instead:
@@ -465,7 +465,7 @@ where
         }
     }
 //@end
-//@extract de::Deserializer::peek | src/de/mod.rs :: impl<'de, R, E> Deserializer<'de, R, E> where R: XmlRead<'de>, E: EntityResolver, :: fn peek | serves=C07 features=serialize,overlapped-lists
+//@extract de::Deserializer::peek | src/de/mod.rs :: impl<'de, R, E> Deserializer<'de, R, E> where R: XmlRead<'de>, E: EntityResolver, :: fn peek | serves=C07,C20 features=serialize,overlapped-lists
     fn peek(&mut self) -> (r: Result<&DeEvent<'de>, DeError>)
         requires old(self).rinv()
         ensures final(self).rinv(), final(self).write@ == old(self).write@, final(self).limit == old(self).limit,
@@ -486,7 +486,7 @@ where
         unreachable!()
     }
 //@end
-//@extract de::Deserializer::next | src/de/mod.rs :: impl<'de, R, E> Deserializer<'de, R, E> where R: XmlRead<'de>, E: EntityResolver, :: fn next | serves=C07 features=serialize,overlapped-lists
+//@extract de::Deserializer::next | src/de/mod.rs :: impl<'de, R, E> Deserializer<'de, R, E> where R: XmlRead<'de>, E: EntityResolver, :: fn next | serves=C07,C20 features=serialize,overlapped-lists
     fn next(&mut self) -> (r: Result<DeEvent<'de>, DeError>)
         requires old(self).rinv()
         ensures final(self).rinv(), final(self).write@ == old(self).write@, final(self).limit == old(self).limit,
@@ -512,7 +512,7 @@ where
         self.reader.next()
     }
 //@end
-//@extract de::Deserializer::last_peeked | src/de/mod.rs :: impl<'de, R, E> Deserializer<'de, R, E> where R: XmlRead<'de>, E: EntityResolver, :: fn last_peeked | serves=C07 features=serialize,overlapped-lists
+//@extract de::Deserializer::last_peeked | src/de/mod.rs :: impl<'de, R, E> Deserializer<'de, R, E> where R: XmlRead<'de>, E: EntityResolver, :: fn last_peeked | serves=C07,C20 features=serialize,overlapped-lists
     fn last_peeked(&self) -> (r: &DeEvent<'de>)
         // `peek()` was called before: the queue is not empty
         requires self.head() is Some
@@ -525,14 +525,14 @@ where
         }
     }
 //@end
-//@extract de::Deserializer::skip_checkpoint | src/de/mod.rs :: impl<'de, R, E> Deserializer<'de, R, E> where R: XmlRead<'de>, E: EntityResolver, :: fn skip_checkpoint | serves=C07 features=serialize,overlapped-lists
+//@extract de::Deserializer::skip_checkpoint | src/de/mod.rs :: impl<'de, R, E> Deserializer<'de, R, E> where R: XmlRead<'de>, E: EntityResolver, :: fn skip_checkpoint | serves=C07,C20 features=serialize,overlapped-lists
     fn skip_checkpoint(&self) -> (r: usize)
         ensures r == self.write@.len()
     {
         self.write.len()
     }
 //@end
-//@extract de::Deserializer::skip_event | src/de/mod.rs :: impl<'de, R, E> Deserializer<'de, R, E> where R: XmlRead<'de>, E: EntityResolver, :: fn skip_event | serves=C07 features=serialize,overlapped-lists
+//@extract de::Deserializer::skip_event | src/de/mod.rs :: impl<'de, R, E> Deserializer<'de, R, E> where R: XmlRead<'de>, E: EntityResolver, :: fn skip_event | serves=C07,C20 features=serialize,overlapped-lists
     fn skip_event(&mut self, event: DeEvent<'de>) -> (r: Result<(), DeError>)
         requires old(self).rinv(), old(self).winv0(), de_wf(event),
             // the event comes from the head of the stream: it does not follow a Text as a Text, and is not followed by one
@@ -562,7 +562,7 @@ where
         Ok(())
     }
 //@end
-//@extract de::Deserializer::skip | src/de/mod.rs :: impl<'de, R, E> Deserializer<'de, R, E> where R: XmlRead<'de>, E: EntityResolver, :: fn skip | serves=C07 features=serialize,overlapped-lists
+//@extract de::Deserializer::skip | src/de/mod.rs :: impl<'de, R, E> Deserializer<'de, R, E> where R: XmlRead<'de>, E: EntityResolver, :: fn skip | serves=C07,C20 features=serialize,overlapped-lists
     #[verifier::exec_allows_no_decreases_clause]
     #[verifier::loop_isolation(false)]
     fn skip(&mut self) -> (r: Result<(), DeError>)
@@ -618,7 +618,7 @@ where
         Ok(())
     }
 //@end
-//@extract de::Deserializer::start_replay | src/de/mod.rs :: impl<'de, R, E> Deserializer<'de, R, E> where R: XmlRead<'de>, E: EntityResolver, :: fn start_replay | serves=C07 features=serialize,overlapped-lists
+//@extract de::Deserializer::start_replay | src/de/mod.rs :: impl<'de, R, E> Deserializer<'de, R, E> where R: XmlRead<'de>, E: EntityResolver, :: fn start_replay | serves=C07,C20 features=serialize,overlapped-lists
     fn start_replay(&mut self, checkpoint: usize)
         // the checkpoint was taken between two skips: what lies in front of it does not end with a Text
         requires old(self).inv(), checkpoint <= old(self).write@.len(),
@@ -663,7 +663,7 @@ where
         }
     }
 //@end
-//@extract de::Deserializer::read_to_end | src/de/mod.rs :: impl<'de, R, E> Deserializer<'de, R, E> where R: XmlRead<'de>, E: EntityResolver, :: fn read_to_end | serves=C07 features=serialize,overlapped-lists
+//@extract de::Deserializer::read_to_end | src/de/mod.rs :: impl<'de, R, E> Deserializer<'de, R, E> where R: XmlRead<'de>, E: EntityResolver, :: fn read_to_end | serves=C07,C20 features=serialize,overlapped-lists
     #[verifier::exec_allows_no_decreases_clause]
     #[verifier::loop_isolation(false)]
     fn read_to_end(&mut self, name: QName) -> (r: Result<(), DeError>)
